@@ -266,6 +266,21 @@ print_entry (GITypelib *t, DirEntry *e)
   puthex ((const char *) &t->data[e->name]);
 }
 
+/* NULL or a proper local directory entry?  (find_by_name would build an info from anything else and abort;
+ * the typelib-level answer is already reported as BAD, so the repository-level call is skipped: "na") */
+static int
+entry_sane (GITypelib *t, DirEntry *e)
+{
+  Header *h = (Header *) t->data;
+  size_t delta;
+  if (e == NULL)
+    return 1;
+  if ((guint8 *) e < t->data + h->directory)
+    return 0;
+  delta = (size_t) ((guint8 *) e - (t->data + h->directory));
+  return delta % h->entry_blob_size == 0 && delta / h->entry_blob_size < h->n_local_entries;
+}
+
 static void
 print_info (GIBaseInfo *info)
 {
@@ -344,7 +359,7 @@ slot_of (const char *arg, char **rest)
  *   R                  fresh repositories, forget all slots
  *   Y <hex>            make sure a GType named <hex> exists (registers a boxed type)      -> "Y <gtype!=0>"
  *   T <slot> <ns> <path>  read a typelib file into a slot                                  -> "T slot index= n_local= n="
- *   L <slot>           g_irepository_load_typelib (both flavours)                          -> "L <hex ns returned>"
+ *   L <slot> [1]       g_irepository_load_typelib (both flavours; 1 = G_IREPOSITORY_LOAD_FLAG_LAZY) -> "L <hex ns returned>"
  *   N <slot> <hex>     by name: indexed, linear fallback, find_by_name on both repositories -> "N e e i i"
  *   n <slot> <hex>     by name without the linear flavours (large ladders)                 -> "n e i"
  *   G <slot> <hex>     by GType name: typelib level (both copies), find_by_gtype (both repositories; "na" when no
@@ -405,8 +420,9 @@ run_typelib (const char *jobfile)
           {
             int s = slot_of (arg, &rest);
             GError *err = NULL;
-            const char *ns = g_irepository_load_typelib (repo, slots[s].idx, 0, &err);
-            const char *ns2 = g_irepository_load_typelib (repo_lin, slots[s].lin, 0, &err);
+            GIRepositoryLoadFlags fl = (*rest == '1') ? G_IREPOSITORY_LOAD_FLAG_LAZY : 0;
+            const char *ns = g_irepository_load_typelib (repo, slots[s].idx, fl, &err);
+            const char *ns2 = g_irepository_load_typelib (repo_lin, slots[s].lin, fl, &err);
             printf ("L ");
             puthex (ns ? ns : "?");
             putchar (' ');
@@ -419,13 +435,23 @@ run_typelib (const char *jobfile)
           {
             int s = slot_of (arg, &rest);
             char *name = unhex (rest);
+            DirEntry *e1 = g_typelib_get_dir_entry_by_name (slots[s].idx, name);
+            DirEntry *e2 = (cmd == 'N') ? g_typelib_get_dir_entry_by_name (slots[s].lin, name) : NULL;
             printf ("%c", cmd);
-            print_entry (slots[s].idx, g_typelib_get_dir_entry_by_name (slots[s].idx, name));
+            print_entry (slots[s].idx, e1);
             if (cmd == 'N')
-              print_entry (slots[s].lin, g_typelib_get_dir_entry_by_name (slots[s].lin, name));
-            print_info (g_irepository_find_by_name (repo, slots[s].ns, name));
+              print_entry (slots[s].lin, e2);
+            if (entry_sane (slots[s].idx, e1))
+              print_info (g_irepository_find_by_name (repo, slots[s].ns, name));
+            else
+              printf (" na");
             if (cmd == 'N')
-              print_info (g_irepository_find_by_name (repo_lin, slots[s].ns, name));
+              {
+                if (entry_sane (slots[s].lin, e2))
+                  print_info (g_irepository_find_by_name (repo_lin, slots[s].ns, name));
+                else
+                  printf (" na");
+              }
             putchar ('\n');
             free (name);
             break;
